@@ -137,7 +137,127 @@ class Ctx:
         return ta[i] if i < len(ta) else None
 
 
+# ----------------------------------------------------------------------------- C03: magnitude sinks
+MAG_ALLOC = [(re.compile(r"^std::vec::Vec::<T, A>::(resize|resize_with|reserve|reserve_exact)$"), 1, "allocation"),
+             (re.compile(r"^std::collections::VecDeque::<T, A>::(resize|reserve)$"), 1, "allocation"),
+             (re.compile(r"^std::vec::Vec::<T>::with_capacity$|^std::string::String::with_capacity$|^std::collections::VecDeque::<T>::with_capacity$"), 0, "allocation"),
+             (re.compile(r"^std::vec::from_elem$"), 1, "allocation"),
+             (re.compile(r"^std::str::<impl str>::repeat$|^std::slice::<impl \[T\]>::repeat$"), 1, "allocation")]
+MAG_DIM = re.compile(r"^(buffers::Buffer|layer::Layer|terminal_state::TerminalState|<buffers::Buffer as TextPane>|<layer::Layer as TextPane>)::(set_size|set_width|set_height)$"
+                     r"|^layer::Layer::new$|^buffers::Buffer::(new|create)$|^line::Line::(create|with_capacity)$|^terminal_state::TerminalState::from$"
+                     r"|^<terminal_state::TerminalState as std::convert::From<\w*>>::from$")
+MAG_LOOP_CONSUME = re.compile(r"^std::iter::Iterator::(for_each|fold|try_for_each|map|count|sum|collect|last)$")
+RANGE_TY = re.compile(r"^(std|core)::ops::(Range|RangeInclusive)<(u8|u16|u32|u64|usize|i8|i16|i32|i64|isize)>$|^std::iter::Rev<std::ops::(Range|RangeInclusive)<\w+>>$")
+
+
+def _range_trip(c, i):
+    """(value that bounds the trip count of the Range argument i, text) or None"""
+    v, tix = c.args[i]
+    if tix is None or not RANGE_TY.match(c.an.T[tix]["s"]):
+        return None
+    op = c.t["args"][i]
+    pj = op.get("copy") or op.get("move")
+    if pj is None:
+        return None
+    can = c.an.canon(c.st, pj)
+    if can is None:
+        return None
+    base = (can[0], can[1])
+    if c.an.T[tix]["s"].startswith("std::iter::Rev"):
+        base = (base[0], base[1] + ("iter",))
+
+    def fld(nm):
+        pl = (base[0], base[1] + (nm,))
+        sv = c.st.sym.get(pl)
+        if sv is not None and sv[0] in ("n", "iv"):
+            return sv
+        return ("n", ("v", pl[0], pl[1]), 0)
+    s_, e_ = fld("start"), fld("end")
+    si = c.st.val_iv(s_)
+    tnt = c.an.mag_tainted(c.st, e_) or c.an.mag_tainted(c.st, s_)
+    if s_[0] == "n" and s_[1] is None and e_[0] == "n":
+        return ("n", e_[1], e_[2] - s_[2]), tnt
+    # relational: end - start
+    if s_[0] == "n" and e_[0] == "n" and s_[1] is not None and e_[1] is not None:
+        d = c.st.bound_diff(e_[1], s_[1])
+        if d is not None:
+            return ("iv", None, d + e_[2] - s_[2]), tnt
+    if si[0] is not None and si[0] >= -65536:
+        return (e_ if e_[0] == "n" else ("iv", None, c.st.val_iv(e_)[1])), tnt
+    return ("iv", None, None), tnt
+
+
+def mag_sinks(c):
+    an, st, path = c.an, c.st, c.path
+    for rx, ai, what in MAG_ALLOC:
+        if rx.match(path) and ai < len(c.args):
+            an.mag_sink(st, c.bi, c.t, c.raw(ai), "%s size %s is not bounded by a constant, a length or a screen dimension" % (what, an.vs(c.num(ai))))
+            return
+    if path == "<I as std::iter::IntoIterator>::into_iter" or MAG_LOOP_CONSUME.match(path):
+        if c.args:
+            r = _range_trip(c, 0)
+            if r is not None:
+                v, tnt = r
+                an.mag_sink(st, c.bi, c.t, v, "loop count %s is not bounded by a constant, a length or a screen dimension" % an.vs(v), tainted=tnt)
+        return
+    callee = c.callee.get("resolved") or path
+    if MAG_DIM.match(callee):
+        ip = an.interproc
+        for i, (v, tix) in enumerate(c.args):
+            if tix is None:
+                continue
+            ty = an.T[tix]
+            if ty["k"] == "int":
+                an.mag_sink(st, c.bi, c.t, c.raw(i), "dimension argument %s is not bounded by a constant, a length or a screen dimension" % an.vs(c.num(i)),
+                            desc=an.describe(c.t) + " #arg%d" % i)
+            elif ty["k"] in ("adt", "tuple") and ip is not None:
+                op = c.t["args"][i]
+                pj = op.get("copy") or op.get("move")
+                can = an.canon(st, pj) if pj is not None else None
+                if can is None:
+                    continue
+                for steps, ft in ip._num_leaves(tix):
+                    if isinstance(ft, tuple) or an.T[ft]["k"] != "int":
+                        continue
+                    pl = (can[0], can[1] + steps)
+                    sv = st.sym.get(pl)
+                    val = sv if (sv is not None and sv[0] in ("n", "iv")) else ("n", ("v", pl[0], pl[1]), 0)
+                    an.mag_sink(st, c.bi, c.t, val, "dimension %s = %s is not bounded by a constant, a length or a screen dimension" % (".".join(map(str, steps)), an.vs(val)),
+                                desc=an.describe(c.t) + " #arg%d.%s" % (i, ".".join(map(str, steps))))
+
+
 def do_call(an, st, bi, t):
+    if not an.mag:
+        return _do_call(an, st, bi, t)
+    # C03: taint of the result
+    path = t["callee"].get("resolved") or t["callee"].get("path") or ""
+    src = False
+    if an.mag_calls is not None and an.mag_calls(path, t):
+        src = True
+    elif an.mag_prop is not None and an.mag_prop.search(path):
+        for o in t["args"]:
+            if "copy" in o or "move" in o:
+                ov, _ = an.eval_op_raw(st, o)
+                if an.mag_tainted(st, ov):
+                    src = True
+                    break
+                pj = o.get("copy") or o.get("move")
+                cn = an.canon(st, pj)
+                if cn is not None and an.term_tainted(st, ("v", cn[0], cn[1])):
+                    src = True
+                    break
+    outs = _do_call(an, st, bi, t)
+    if src:
+        for _, s2 in outs:
+            cn = an.canon(s2, t["dest"])
+            if cn is not None:
+                tt = ("v", cn[0], cn[1])
+                if not an.mag_bounded(s2, ("n", tt, 0), deep=False):
+                    s2.taint = s2.taint | {tt}
+    return outs
+
+
+def _do_call(an, st, bi, t):
     c = t["callee"]
     path = c.get("resolved") or c.get("path") or "indirect"
     target = t.get("target")
@@ -158,6 +278,8 @@ def do_call(an, st, bi, t):
     ctx.dest_tix = an.place_type(t["dest"])
     if an.collect and an.watch is not None and an.watch(path):
         an.res.call_states[bi] = [(v, tix, st.val_iv(v) if v[0] in ("n", "iv") else None) for (v, tix) in ctx.args]
+    if an.mag and an.collect:
+        mag_sinks(ctx)
     # explicit panics ------------------------------------------------------------
     if PANIC_FN.search(path) or (target is None and not c.get("resolved_local") and "process::exit" not in path and "process::abort" not in path
                                  and re.search(r"panic|unreachable|abort|fail", path)):
